@@ -22,10 +22,11 @@ type scLife struct {
 	maxRest  int
 	closeAt  int
 	badDone  bool
+	groups   []string // C14: one group name per member
 }
 
 func init() {
-	for _, p := range []string{"C01", "C04", "C05", "C06", "C13", "C16"} {
+	for _, p := range []string{"C01", "C04", "C05", "C06", "C13", "C14", "C16"} {
 		p := p
 		scenarios[p] = func() Scenario { return &scLife{prop: p} }
 	}
@@ -106,6 +107,28 @@ func (s *scLife) Configure(w *World) {
 		c.W.Scrape, c.W.API, c.W.Close = 3, 1, 1
 		s.maxRest = 0
 		c.Faults = false
+	case "C14":
+		// closed loop: the checkpoint documents live in the streamed bucket, every checkpoint write comes back
+		// as a mutation; several groups may share the bucket; the workload is rich in reserved-prefix keys
+		c.MetaBucket, c.Metadata = c.Bucket, "couchbase"
+		c.Faults = false
+		c.KeyClassW = []int{6, 4, 3, 2}
+		c.W.Crash = 0
+		s.maxRest = 0
+		c.QuiesceBudget = 15 * time.Second
+		names := []string{"grp", "g", "a:b", "grp:checkpoint:1", "x_y-z", "\u00fcn\u0131", " sp ", "grp2"}
+		switch t.Draw(10, nil) {
+		case 0:
+			s.groups = []string{Pick(t, []string{"a.b", ".a", "a.", "."}, nil)}
+			c.Extra["dotted"] = "1"
+		case 1, 2, 3, 4:
+			a := t.Draw(len(names), nil)
+			b := (a + 1 + t.Draw(len(names)-1, nil)) % len(names)
+			s.groups = []string{names[a], names[b]}
+		default:
+			s.groups = []string{Pick(t, names, nil)}
+		}
+		c.Group = s.groups[0]
 	}
 	w.buildCluster()
 	w.cl.collections["s1.c1"] = 8
@@ -142,6 +165,25 @@ func (s *scLife) MayStall(w *World, c *Conn) bool {
 }
 
 func (s *scLife) MayDrop(w *World, c *Conn) bool { return false }
+
+func (s *scLife) TuneMember(w *World, m *Member) {
+	if s.prop == "C14" && m.id <= len(s.groups) {
+		m.cfg.Dcp.Group.Name = s.groups[m.id-1]
+	}
+}
+
+func (s *scLife) Boot(w *World) {
+	if s.prop == "C14" {
+		if w.cfg.Extra["dotted"] == "1" {
+			w.jl(&journal.Ev{K: journal.KExpect, Vb: -1, S: "unsupported group name includes dot"})
+		}
+		for range s.groups {
+			w.addMember().start()
+		}
+		return
+	}
+	w.addMember().start()
+}
 
 func (s *scLife) BeforeStep(w *World) {}
 
